@@ -314,6 +314,10 @@ func runApp(c *Ctx, sp aspec) *codecResult {
 		}
 		if err != nil {
 			collect()
+			if pe, ok := err.(absint.Panic); ok {
+				res.add("app.accept", "encoder-total/"+tag, false, "encoding a well-formed value returns bytes or an error", pe.Why+witnessOr(in, pe.Cond, ""), pos)
+				continue
+			}
 			res.undecided("undecided", "enc/"+tag, err.Error(), pos)
 			continue
 		}
@@ -357,6 +361,10 @@ func runApp(c *Ctx, sp aspec) *codecResult {
 		recv, de, e := decode(out)
 		collect()
 		if e != nil {
+			if pe, ok := e.(absint.Panic); ok {
+				res.add("app.inv", "decoder-total/"+tag, false, "decoding the encoder's output returns a value or an error", pe.Why, pos)
+				continue
+			}
 			res.undecided("undecided", "dec-of-enc/"+tag, e.Error(), pos)
 			continue
 		}
